@@ -53,8 +53,7 @@ def run_case(desc):
     miss = missing_from_registry()
     if miss:
         return {"status": "inconclusive", "reason": "exported strategies not in registry: %s" % miss}
-    c = poolcase.build(dict(desc, batch="1"))
-    why = poolcase.domain(c)
+    c, why = poolcase.build_in_domain(dict(desc, batch="1"))
     if why:
         return {"status": "skip", "skip_reason": why}
     e = c.entry
